@@ -78,8 +78,34 @@ class LinalgContract:
         n = M.shape[0]
         self.calls.append(('pinv', M, kw))
         if a or kw:
-            # with a cut-off argument the result is not the (pseudo-)inverse in general: no contract
-            return self.fresh('pinvcut', (n, n))
+            # documented meaning of the cut-off arguments: singular values <= atol + rtol * largest are treated as 0
+            import fractions
+            m = [[z3.simplify(lift(M[i, j])) for j in range(n)] for i in range(n)]
+            if not all(z3.is_rational_value(x) for row in m for x in row):
+                raise Inconclusive('pinv with a cut-off on a symbolic matrix')
+            fm = [[x.as_fraction() for x in row] for row in m]
+            atol = kw.get('atol', 0.0) or 0.0
+            rtol = kw.get('rtol', None)
+            if 'rcond' in kw or 'cond' in kw or a:
+                rtol = kw.get('rcond', kw.get('cond', a[0] if a else None))
+            svals = np.linalg.svd(np.array([[float(x) for x in row] for row in fm]), compute_uv=False)
+            if rtol is None:
+                rtol = 0.0 if atol else n * np.finfo(float).eps
+            cut = float(atol) + float(rtol) * float(max(svals))
+            if all(sv > cut * (1 + 1e-9) for sv in svals):
+                pass  # nothing is cut: the ordinary inverse below
+            elif all(fm[i][j] == 0 for i in range(n) for j in range(n) if i != j):
+                P = np.empty((n, n), dtype=object)
+                for i in range(n):
+                    for j in range(n):
+                        P[i, j] = SymReal(RV(0))
+                    if abs(float(fm[i][i])) > cut:
+                        P[i, i] = SymReal(RV(str(1 / fm[i][i])))
+                return P
+            elif self.singular and all(sv > cut or sv <= 1e-9 * max(svals) for sv in svals):
+                pass  # only the (numerically) zero singular value is removed: the ordinary pseudo-inverse below
+            else:
+                raise Inconclusive('pinv cut-off removes a singular value of a non-diagonal matrix')
         P = np.empty((n, n), dtype=object)
         if not self.singular:
             inv = self._explicit_inverse(M)
@@ -193,21 +219,6 @@ def scenario(K, names, with_null, with_boot, singular, sv, c=None, concrete=Fals
     with shims.patched(*patches):
         r = res.bioResults(raw, identification_threshold=1e-5)
         d = r.data
-        # domain exits: the library reports the largest float as a sentinel for a negative variance, a zero
-        # standard error or a non-positive variance of a difference; the defining formulas do not apply there
-        MAXF = float(np.finfo(float).max)
-
-        def sentinel(x):
-            return isinstance(x, (float, np.floating)) and float(x) == MAXF
-        vals = []
-        for b in d.betas:
-            vals += [b.stdErr, b.tTest, b.robust_stdErr, b.robust_tTest, b.bootstrap_stdErr, b.bootstrap_tTest]
-        for row in (d.secondOrderTable or {}).values():
-            vals += list(row)
-        if any(sentinel(v) for v in vals):
-            if concrete:
-                raise DomainExit()
-            raise symx.PathAbort()
         LLf, LLi, N = L('final_ll'), L('init_ll'), L('N')
         eqs.append(('likelihood ratio test (init)', d.likelihoodRatioTest, -2 * (LLi - LLf)))
         eqs.append(('rho-square (init)', d.rhoSquare, 1 - LLf / LLi))
@@ -246,6 +257,28 @@ def scenario(K, names, with_null, with_boot, singular, sv, c=None, concrete=Fals
         for i in range(K):
             for j in range(i + 1, K):
                 eqs.append((f'varCovar symmetric [{i}][{j}]', V[i][j], V[j][i]))
+        # domain exits: the library reports the largest float as a sentinel for a negative variance, a zero
+        # standard error or a non-positive variance of a difference; the defining formulas do not apply there
+        MAXF = float(np.finfo(float).max)
+
+        def sentinel(x):
+            return isinstance(x, (float, np.floating)) and float(x) == MAXF
+        vals = []
+        for b in d.betas:
+            vals += [b.stdErr, b.tTest, b.robust_stdErr, b.robust_tTest, b.bootstrap_stdErr, b.bootstrap_tTest]
+        for row in (d.secondOrderTable or {}).values():
+            vals += list(row)
+        if any(sentinel(v) for v in vals):
+            def plainly_false(g, w):
+                try:
+                    return z3.is_false(z3.simplify(lift(g) == lift(w)))
+                except TypeError:
+                    return False
+            if any(plainly_false(g, w) for _, g, w in eqs):
+                return eqs  # the matrix-level claims already fail: report them
+            if concrete:
+                raise DomainExit()
+            raise symx.PathAbort()
         # robust = V B V
         Rb = [[lift(d.robust_varCovar[i, j]) for j in range(K)] for i in range(K)]
         for i in range(K):
@@ -352,6 +385,18 @@ def scenario(K, names, with_null, with_boot, singular, sv, c=None, concrete=Fals
                         eqs.append((f'compiled table (unformatted): row [{nm} (ttest)] holds the robust t-test',
                                     df.loc[f'{nm} (ttest)', 'm1'], lift(d.betas[i].robust_tTest)))
                 eqs.append(('compiled table (unformatted): [Final log likelihood]', df.loc['Final log likelihood', 'm1'], LLf))
+                if concrete:
+                    df, _ = res.compile_estimation_results({'m1': r}, include_robust_stderr=inc_std, include_robust_ttest=inc_t,
+                                                           formatted=True)
+                    for i, nm in enumerate(names):
+                        title = nm + (' (std)' if inc_std else '') + (' (t-test)' if inc_t else '')
+                        if title not in df.index:
+                            eqs.append((f'compiled table (formatted): row title [{title}]', sorted(df.index), 'present'))
+                            continue
+                        want = [f'{float(d.betas[i].value):.3g}'] + ([f'({float(d.betas[i].robust_stdErr):.3g})'] if inc_std else []) + \
+                               ([f'({float(d.betas[i].robust_tTest):.3g})'] if inc_t else [])
+                        eqs.append((f'compiled table (formatted): figures of [{title}] in the order of the label',
+                                    df.loc[title, 'm1'].split(), want))
                 if not concrete:
                     df, _ = res.compile_estimation_results({'m1': r}, include_robust_stderr=inc_std, include_robust_ttest=inc_t,
                                                            formatted=True)
@@ -543,7 +588,7 @@ def concrete_run(case):
                     bad.append(label)
                 continue
             if not z3.is_expr(got) and not z3.is_expr(want):
-                if isinstance(got, tuple) or isinstance(want, (tuple, str, list)):
+                if isinstance(got, (tuple, list)) or isinstance(want, (tuple, str, list)):
                     if got != want:
                         bad.append(f'{label}: {got!r} instead of {want!r}')
                     continue
